@@ -107,7 +107,7 @@ static double cd_digest(int n, const int *el, const double *a, const double *b) 
 static double cr_digest(const Crystal_Struct *c) { double h = c->a + 2 * c->b + 3 * c->c + 5 * c->alpha + 7 * c->beta + 11 * c->gamma + 13 * c->volume + c->n_atom; for (int k = 0; k < c->n_atom; k++) h += c->atom[k].Zatom * (k + 1.0) + c->atom[k].fraction + 3 * c->atom[k].x + 5 * c->atom[k].y + 7 * c->atom[k].z; return h; }
 static double crpp_digest(const xrlpp::Crystal::Struct &c) { double h = c.a + 2 * c.b + 3 * c.c + 5 * c.alpha + 7 * c.beta + 11 * c.gamma + 13 * c.volume + c.n_atom; for (int k = 0; k < c.n_atom; k++) h += c.atom[k].Zatom * (k + 1.0) + c.atom[k].fraction + 3 * c.atom[k].x + 5 * c.atom[k].y + 7 * c.atom[k].z; return h; }
 
-struct Scen { std::string name; std::function<Out()> c; std::function<Out()> cpp; };
+struct Scen { std::string name; std::function<Out()> c; std::function<Out()> cpp; bool pure; };   /* pure: a query on an EXISTING object - no side needs a new one */
 static std::vector<Scen> scenarios;
 
 static Crystal_Struct *g_si;                  /* a C crystal made before any failpoint is armed */
@@ -117,7 +117,8 @@ static void build_scenarios() {
   g_si = Crystal_GetCrystal("Si", NULL, NULL);
   g_sipp = new xrlpp::Crystal::Struct(xrlpp::Crystal::GetCrystal("AlphaQuartz"));
   static Crystal_Struct *g_aq = Crystal_GetCrystal("AlphaQuartz", NULL, NULL);
-  auto S = [&](const char *n, std::function<Out()> c, std::function<Out()> cpp) { scenarios.push_back(Scen{n, c, cpp}); };
+  auto S = [&](const char *n, std::function<Out()> c, std::function<Out()> cpp) { scenarios.push_back(Scen{n, c, cpp, false}); };
+  auto P = [&](const char *n, std::function<Out()> c, std::function<Out()> cpp) { scenarios.push_back(Scen{n, c, cpp, true}); };
 
   for (const char *name : {"Si", "Muscovite", "AlphaQuartz"}) {
     std::string nm = name;
@@ -161,6 +162,28 @@ static void build_scenarios() {
   S("Crystal::F_H_StructureFactor on a wrapper object",
     [] { xrl_error *e = NULL; xrlComplex z = Crystal_F_H_StructureFactor(g_aq, 10.0, 1, 1, 1, 1.0, 1.0, &e); return c_done(false, e, z.re, z.im); },
     [] { return guarded([&](Out &o) { std::complex<double> z = g_sipp->F_H_StructureFactor(10.0, 1, 1, 1, 1.0, 1.0); o.v[0] = z.real(); o.v[1] = z.imag(); }); });
+  /* queries on an existing wrapper object through the FREE functions and the members: C allocates nothing for them, so no allocation failure
+   * can make C report an error - a wrapper path that allocates on the way (a hidden copy of its argument) throws where C cannot fail */
+  P("free Crystal::Bragg_angle(object)", [] { xrl_error *e = NULL; double v = Bragg_angle(g_aq, 10.0, 1, 1, 1, &e); return c_done(v == 0.0, e, v); },
+    [] { return guarded([&](Out &o) { o.v[0] = xrlpp::Crystal::Bragg_angle(*g_sipp, 10.0, 1, 1, 1); }); });
+  P("free Crystal::Q_scattering_amplitude(object)", [] { xrl_error *e = NULL; double v = Q_scattering_amplitude(g_aq, 10.0, 1, 1, 1, 1.0, &e); return c_done(v == 0.0, e, v); },
+    [] { return guarded([&](Out &o) { o.v[0] = xrlpp::Crystal::Q_scattering_amplitude(*g_sipp, 10.0, 1, 1, 1, 1.0); }); });
+  P("member Crystal::Q_scattering_amplitude", [] { xrl_error *e = NULL; double v = Q_scattering_amplitude(g_aq, 10.0, 1, 1, 1, 1.0, &e); return c_done(v == 0.0, e, v); },
+    [] { return guarded([&](Out &o) { o.v[0] = g_sipp->Q_scattering_amplitude(10.0, 1, 1, 1, 1.0); }); });
+  P("free Crystal::dSpacing(object)", [] { xrl_error *e = NULL; double v = Crystal_dSpacing(g_aq, 1, 1, 1, &e); return c_done(v == 0.0, e, v); },
+    [] { return guarded([&](Out &o) { o.v[0] = xrlpp::Crystal::dSpacing(*g_sipp, 1, 1, 1); }); });
+  P("member Crystal::dSpacing", [] { xrl_error *e = NULL; double v = Crystal_dSpacing(g_aq, 1, 1, 1, &e); return c_done(v == 0.0, e, v); },
+    [] { return guarded([&](Out &o) { o.v[0] = g_sipp->dSpacing(1, 1, 1); }); });
+  P("free Crystal::UnitCellVolume(object)", [] { xrl_error *e = NULL; double v = Crystal_UnitCellVolume(g_aq, &e); return c_done(v == 0.0, e, v); },
+    [] { return guarded([&](Out &o) { o.v[0] = xrlpp::Crystal::UnitCellVolume(*g_sipp); }); });
+  P("member Crystal::UnitCellVolume", [] { xrl_error *e = NULL; double v = Crystal_UnitCellVolume(g_aq, &e); return c_done(v == 0.0, e, v); },
+    [] { return guarded([&](Out &o) { o.v[0] = g_sipp->UnitCellVolume(); }); });
+  P("free Crystal::F_H_StructureFactor(object)", [] { xrl_error *e = NULL; xrlComplex z = Crystal_F_H_StructureFactor(g_aq, 10.0, 1, 1, 1, 1.0, 1.0, &e); return c_done(false, e, z.re, z.im); },
+    [] { return guarded([&](Out &o) { std::complex<double> z = xrlpp::Crystal::F_H_StructureFactor(*g_sipp, 10.0, 1, 1, 1, 1.0, 1.0); o.v[0] = z.real(); o.v[1] = z.imag(); }); });
+  P("free Crystal::F_H_StructureFactor_Partial(object)", [] { xrl_error *e = NULL; xrlComplex z = Crystal_F_H_StructureFactor_Partial(g_aq, 10.0, 1, 1, 1, 1.0, 1.0, 2, 2, 2, &e); return c_done(false, e, z.re, z.im); },
+    [] { return guarded([&](Out &o) { std::complex<double> z = xrlpp::Crystal::F_H_StructureFactor_Partial(*g_sipp, 10.0, 1, 1, 1, 1.0, 1.0, 2, 2, 2); o.v[0] = z.real(); o.v[1] = z.imag(); }); });
+  P("member Crystal::F_H_StructureFactor_Partial", [] { xrl_error *e = NULL; xrlComplex z = Crystal_F_H_StructureFactor_Partial(g_aq, 10.0, 1, 1, 1, 1.0, 1.0, 2, 2, 2, &e); return c_done(false, e, z.re, z.im); },
+    [] { return guarded([&](Out &o) { std::complex<double> z = g_sipp->F_H_StructureFactor_Partial(10.0, 1, 1, 1, 1.0, 1.0, 2, 2, 2); o.v[0] = z.real(); o.v[1] = z.imag(); }); });
   S("Crystal::F_H_StructureFactor below the cut-off (error path)",
     [] { xrl_error *e = NULL; xrlComplex z = Crystal_F_H_StructureFactor(g_aq, 0.5, 3, 3, 3, 1.0, 1.0, &e); return c_done(true, e, z.re, z.im); },
     [] { return guarded([&](Out &o) { std::complex<double> z = g_sipp->F_H_StructureFactor(0.5, 3, 3, 3, 1.0, 1.0); o.v[0] = z.real(); o.v[1] = z.imag(); }); });
@@ -321,6 +344,11 @@ int main(int argc, char **argv) {
         continue;
       }
       const Rec &r = recs[nrec - 1];
+      /* a query on an existing object: C makes fewer library allocations than the wrapper path (here: none this one could hit), so C cannot fail
+       * on this injection - it succeeded without one - and the wrapper may not throw */
+      if (sc.pure && k > nc && r.c_kind < 0 && c0.kind == 0 && r.w_kind > 0 && r.w_failed > 0 && r.w_kind != 8)
+        viol("C18", "c18:failpoint:throws-where-C-cannot-fail:" + sc.name, std::string("the wrapper threw ") + KN[r.w_kind] + " '" + r.w_what + "' when its library allocation " + std::to_string(k) + " failed; the C call makes " + std::to_string(nc) +
+             " allocation(s) and succeeds: the wrapper path allocates (copies its argument?) where C does not");
       if (r.c_kind == 8) { viol("C04", "failpoint:heap-overrun:" + sc.name, std::string("with library allocation ") + std::to_string(k) + " failing the C calls " + r.over_what + ", then the process died"); continue; }
       if (r.w_kind == 8) { viol("C18", "c18:failpoint:heap-overrun:" + sc.name, std::string("with library allocation ") + std::to_string(k) + " failing the wrapper path " + r.over_what + ", then the process died"); continue; }
       if (r.c_over) viol("C04", "failpoint:heap-overrun:" + sc.name, std::string("with library allocation ") + std::to_string(k) + " failing the C calls " + r.over_what);
